@@ -4,7 +4,7 @@
    (see Props/C03.v for the transition system). *)
 From Coq Require Import ZArith List Bool String.
 Require Import QzSched.Gen.Params QzSched.SchedModel QzSched.ListQueue QzSched.Triggers QzSched.LtsDefs
-               QzSched.ApiProofs QzSched.C08Proofs QzSched.ExamplesC09 QzSched.Examples.
+               QzSched.ApiProofs QzSched.C08Proofs QzSched.ExampleDefs QzSched.Examples.
 Import ListNotations.
 Open Scope list_scope.
 Open Scope Z_scope.
